@@ -1,8 +1,9 @@
 """C14 - trust-schema validator (lvs_validator / CascadeChecker / union_checker).
 
 A case is a small PKI described by ground truth (who signed what, with which key, naming which
-certificate), a static world of retrievable certificates, several validator instances (schema +
-anchor) and a history of validations.  Real keys, real certificates (security_v2.self_sign /
+certificate), a world of retrievable certificates that may CHANGE between two validations (`changes`: a
+certificate appears, disappears, times out, is Nacked, is replaced by another one of the same name), several
+validator instances (schema + anchor + the key storage object each was handed) and a history of validations.  Real keys, real certificates (security_v2.self_sign /
 derive_cert), the real LVS compiler/checker, the real NDNApp (v1, the one the validator imports) on
 the virtual-time loop with a simulated certificate producer.
 
@@ -38,6 +39,11 @@ THEOREMS = [
     'Ndn.C14.chain_never_through_unmatched_key', 'Ndn.C14.unmatched_key_never_accepted', 'Ndn.C14.root_of_trust_spec',
     'Ndn.C14.construct_refuses_lvs', 'Ndn.C14.construct_refuses_missing_fns_lvs',
     'Ndn.C14.check_raise_is_verdict_lvs', 'Ndn.C14.empty_name_raises_lvs', 'Ndn.C14.link_check_total_lvs',
+    # the certificate world changes between validations; the key storage is an explicit, possibly shared, object
+    'Ndn.C14.accept_of_chain_now', 'Ndn.C14.accept_sound_with_cache', 'Ndn.C14.trusted_keys_were_served',
+    'Ndn.C14.empty_storage_verdict_iff_chain', 'Ndn.C14.instances_independent', 'Ndn.C14.empty_storage_independent',
+    'Ndn.C14.static_refinement', 'Ndn.C14.static_history_verdict_iff_chain',
+    'Ndn.C14.accept_of_chain_now_lvs', 'Ndn.C14.accept_sound_with_cache_lvs',
 ]
 PARTIAL = {}
 TRUSTED = [
@@ -57,8 +63,9 @@ TRUSTED = [
     'theorem check_exception_uncaught) and is the outcome of the validation at every depth (`Verdict.raise`, compared with the '
     'class the real validator raises; classes without a constructor in the model - LvsModelError - compare as `Other`); trusted: a '
     'user function does not itself raise ValidationFailure / InterestTimeout / InterestNack',
-    'C14: the world of retrievable certificates is static during a case and answers an Interest as a function of the whole '
-    'Interest (name, CanBePrefix, MustBeFresh, lifetime); NDNApp.express_interest is reduced to `express`: the returned Data is '
+    'C14: the world of retrievable certificates answers an Interest as a function of the whole Interest (name, CanBePrefix, '
+    'MustBeFresh, lifetime) and changes only BETWEEN validations (`world` events of the model; a validation is atomic: '
+    'concurrent validations of one instance are not modelled); NDNApp.express_interest is reduced to `express`: the returned Data is '
     'taken iff it passes the pending-Interest test (same name, or CanBePrefix), else Nack / timeout (PIT behaviour is C03: the '
     'test is tied to its specification by pit_exact_for_cert_interest, not re-proved from the PIT model); the Interest the model '
     'sends (exact name, MustBeFresh, 4000 ms) is compared field by field with what the simulated producer receives; key locators '
@@ -66,6 +73,16 @@ TRUSTED = [
     'C14: validity periods (and ContentType) of certificates are not looked at by the validator and are not part of the property; '
     'the generator does include expired / not-yet-valid / ContentType!=KEY certificates on otherwise valid chains (deviation '
     '`oddcert`): acceptance is what the model predicts and is compared; the oracle does not judge a refusal there',
+    'C14: reading of "every certificate on the way can be retrieved" when the world changes: retrievable NOW, or retrieved and '
+    'validated by a chain at an earlier validation into the storage object the instance was handed (the cache is part of the anchored '
+    'state; theorem accept_sound_with_cache says exactly this, and it is WEAKER than the statement\'s "iff" exactly by the cache: a '
+    'certificate that has been withdrawn stays trusted as long as the storage object lives - nothing expires a key, validity '
+    'periods are not looked at). An acceptance from the storage is therefore not reported; the oracle demands acceptance whenever a '
+    'chain exists in the world as it is NOW (accept_of_chain_now), except for an instance whose storage may hold ANOTHER key under '
+    'the same certificate name (hypothesis KeyStable of the theorem: a name denotes one key - NDN Data is immutable, a re-issued '
+    'certificate has another version component; such `replace` histories are generated, the refusal is what the model predicts and '
+    'is compared, tag chain-now-not-accepted(key-replaced)); instances handed an EmptyKeyStorage are judged by the plain iff at every '
+    'step (empty_storage_verdict_iff_chain)',
     'C14: non-termination on certificate loops is modelled as fuel exhaustion = no verdict; the simulated producer stops '
     'answering after `budget` certificates',
 ]
@@ -84,10 +101,15 @@ RULE = ('PKIs over 5 LVS schema templates (site/admin/user/device, a flat varian
         'N\'s key (no chain), while a sibling packet signed through N is validated by the SAME instance first (and sometimes '
         'after); the simulated producer and the oracle key the world by an injective URI of the wire name; '
         'EC P-256 and P-384), the key storage left to the default argument or passed explicitly (a MemoryKeyStorage, an '
-        'EmptyKeyStorage [oracle only], one MemoryKeyStorage given to two instances with the same schema and anchor [oracle '
-        'only]), 1..3 validator instances (own anchor, '
+        'EmptyKeyStorage, one MemoryKeyStorage given to two instances with the same schema and anchor), 1..3 validator instances (own anchor, '
         'rival anchor, other schema, a schema whose user function raises TypeError on /site/vdoc/... names, '
-        'unbuildable ones) and 2..6 validations in random order, plus every permutation of small step sets; non-trivial = at '
+        'unbuildable ones) and 2..6 validations in random order, plus every permutation of small step sets; histories in which the world CHANGES between validations '
+        '(stream dyn:*, all with a model line): a certificate on a valid chain that timed out / was Nacked at the first validation '
+        'APPEARS (same instance and a fresh one asked again); DISAPPEARS after its key was stored (absent / timeout / Nack; the same '
+        'instance, an instance handed the same storage object, a fresh instance and one with an EmptyKeyStorage are asked; sometimes '
+        'it comes back); FLAPS between retrievable and not; is REPLACED by another certificate (another key, same issuer) published '
+        'under the same name, with a packet signed by the new key (old and new packet through the old and a fresh instance); two '
+        'instances with DIFFERENT anchor or schema handed ONE storage object (static or changing world); non-trivial = at '
         'least one certificate fetch or acceptance; distinct = distinct case descriptions. Stream `lvs` (c14_lvs.py): generated '
         'LVS schemas (generator of C11-C13; links on which the check raises are preferred when there are any; half of the multi-root ones funnelled into one root), user_fns dictionaries '
         'lacking some functions, up to 7 names (instances of root rules, signed/signer instances, near misses, some with an '
@@ -352,8 +374,63 @@ def spec_verifies(kid, o):
     return o['by'] == kid and declared(o) == NATURAL[ktype(kid)]
 
 
-def spec_chain(case, inst, oid):
-    """is there a chain oid - certificate - ... - anchor of this instance?  (None, reason) / (True, sigtypes)"""
+def changes(case):
+    """[[k, name, outcome | None], ...]: before step k the network starts answering Interests of `name` with `outcome`
+    (['D', oid] / ['N'] / ['T']; None: nothing is known under the name any more).  `appear` is the older spelling of
+    one such change."""
+    ch = [list(c) for c in case.get('changes', [])]
+    if case.get('appear'):
+        ch.append(list(case['appear']))
+    return sorted(ch, key=lambda c: c[0])
+
+
+def world_at(case, k):
+    """the certificate world when step k is carried out"""
+    w = dict(case['world'])
+    for kk, n, out in changes(case):
+        if kk <= k:
+            if out is None:
+                w.pop(n, None)
+            else:
+                w[n] = out
+    return w
+
+
+def storage_id(case, ii):
+    """which storage OBJECT instance ii holds: None for an EmptyKeyStorage, else a label (instances that were handed one
+    object have the same label)"""
+    st = case['insts'][ii].get('storage')
+    if st == 'empty':
+        return None
+    if st in (None, 'mem'):
+        return 'own%d' % ii
+    return st
+
+
+def served_key(case, world, n):
+    """the key of the certificate the world serves under EXACTLY the name n (None: nothing / Nack / timeout / another name)"""
+    w = world.get(n)
+    if not w or w[0] != 'D' or fullname(case['objs'][w[1]]) != n:
+        return None
+    return case['objs'][w[1]].get('key')
+
+
+def key_stable(case, k):
+    """a name denotes one key: up to step k no two states of the world served different keys under one name"""
+    seen = {}
+    for j in range(k + 1):
+        w = world_at(case, j)
+        for n in w:
+            key = served_key(case, w, n)
+            if key is not None and seen.setdefault(n, key) != key:
+                return False
+    return True
+
+
+def spec_chain(case, inst, oid, trusted=()):
+    """is there a chain oid - certificate - ... - anchor of this instance?  (None, reason) / (True, sigtypes).
+    `trusted`: (certificate name, key) pairs the instance's storage object vouches for (certificates fetched and validated by a
+    chain at an earlier validation of an instance holding that object): a chain may end at a link to such a key."""
     schema = case['schemas'][inst['schema']]
     anchor = case['objs'][inst['anchor']]
     aname = fullname(anchor)
@@ -369,6 +446,8 @@ def spec_chain(case, inst, oid):
         types.append(declared(o))
         if kn == aname:
             return (True, types) if spec_verifies(anchor['key'], o) else (False, 'a signature does not verify')
+        if any(n == kn and spec_verifies(key, o) for n, key in trusted):
+            return True, types + ['cached']
         w = case['world'].get(kn)
         if not w or w[0] != 'D':
             return False, 'a certificate cannot be retrieved'
@@ -582,7 +661,7 @@ def run_impl(case):
                 kw['storage'] = cv.MemoryKeyStorage()
             elif st == 'empty':
                 kw['storage'] = cv.EmptyKeyStorage()
-            elif st:                      # 'share…': ONE MemoryKeyStorage passed to several instances (same schema and anchor)
+            elif st:                      # 'share…': ONE MemoryKeyStorage passed to several instances
                 kw['storage'] = shared.setdefault(st, cv.MemoryKeyStorage())
             try:
                 v = rig.loop.call_now(lambda: lvs_validator(checker, rig.app, wires[inst['anchor']], **kw))
@@ -596,8 +675,7 @@ def run_impl(case):
         face = rig.face
         world = dict(case['world'])
         for k_step, (ii, oid) in enumerate(case['steps']):
-            if case.get('appear') and case['appear'][0] == k_step:
-                world[case['appear'][1]] = case['appear'][2]      # a certificate becomes retrievable from now on
+            world = world_at(case, k_step)      # what the network answers from now on (certificates appear, disappear, are replaced)
             v = validators[ii]
             if v is None:
                 out['steps'].append({'verdict': 'X', 'fetched': []})
@@ -669,6 +747,8 @@ def _ids(case, impl):
         names.setdefault(fullname(case['objs'][oid]), len(names))
     for n in sorted(case['world']):
         names.setdefault(n, len(names))
+    for _, n, _ in changes(case):
+        names.setdefault(n, len(names))
     kids = {}
     for oid in oids:
         for k in (case['objs'][oid].get('key'), case['objs'][oid].get('by')):
@@ -694,10 +774,6 @@ def model_line(case, impl):
     `Ndn.Lvs.check`, the anchor's matched rules, `root_of_trust`, `validate_user_fns` and the construction itself."""
     if LV.is_lvs(case):
         return LV.model_line(case, impl)
-    if case.get('appear'):
-        return None        # the world changes between two validations: the composed model has a static world; oracle only
-    if any(i.get('storage') not in (None, 'mem') for i in case['insts']):
-        return None        # EmptyKeyStorage / one storage shared by several instances: the fetch log differs; oracle only
     oids, names, kids = _ids(case, impl)
     idx = {oid: i for i, oid in enumerate(oids)}
     st = {'hmac': 'h', 'rsa': 'r', 'ecdsa': 'e', 'ed25519': 'd', 'other': 'o'}
@@ -720,14 +796,23 @@ def model_line(case, impl):
         w = case['world'][n]
         wl.append(f"{names[n]}=" + (f"D{idx[w[1]]}" if w[0] == 'D' else w[0]))
     models, il = [], []
-    for inst, rec in zip(case['insts'], impl['insts']):
+    sids = {}
+    for k, (inst, rec) in enumerate(zip(case['insts'], impl['insts'])):
         anchor = case['objs'][inst['anchor']]
         if anchor['key'] == 'empty' or rec.get('token') is None:
             return None
         if rec['token'] not in models:
             models.append(rec['token'])
-        il.append('/'.join([str(idx[inst['anchor']]), str(models.index(rec['token'])), ','.join(rec['env']) or '.']))
-    sl = [f'{i}:{idx[oid]}' for i, oid in case['steps']]
+        sid = storage_id(case, k)           # the storage OBJECT: E, or the number of the MemoryKeyStorage object
+        store = 'E' if sid is None else 'M%d' % sids.setdefault(sid, len(sids))
+        il.append('/'.join([str(idx[inst['anchor']]), str(models.index(rec['token'])), ','.join(rec['env']) or '.', store]))
+    sl = []
+    ch = changes(case)
+    for k, (i, oid) in enumerate(case['steps']):
+        for kk, n, out in ch:
+            if kk == k:                     # the world changes before this validation
+                sl.append(f"W{names[n]}=" + ('A' if out is None else f"D{idx[out[1]]}" if out[0] == 'D' else out[0]))
+        sl.append(f'{i}:{idx[oid]}')
     nl = [_name_token(u) for u, _ in sorted(names.items(), key=lambda kv: kv[1])]
     return (f"C14 pki {case.get('budget', BUDGET)} {'/'.join(nl)} {'@'.join(models) or '.'} {';'.join(ol) or '.'} "
             f"{','.join(wl) or '.'} {';'.join(il) or '.'} {','.join(sl) or '.'}")
@@ -782,22 +867,37 @@ def oracle(case, impl):
             anchor = case['objs'][inst['anchor']]
             kinds = ' with an Ed25519 signature' if declared(anchor) == 'ed25519' else ''
             return f'instance {k}: validator refused a matching, properly self-signed anchor{kinds}: {rec["built"]}'
+    # what each storage OBJECT may vouch for: (certificate name, key) of every certificate that an instance holding the object
+    # FETCHED (the Interest was seen) at an earlier validation, that was served under exactly that name then and had a chain then
+    # (in this same sense) to the anchor of the instance that fetched it.  "Every certificate on the way can be retrieved" is read
+    # as: retrievable now, or retrieved-and-validated earlier into the storage the instance was given (a cache is part of the
+    # anchored state); instances that were not handed the same object share nothing.
+    trust = {}
     for k, ((ii, oid), s) in enumerate(zip(case['steps'], impl['steps'])):
         if s['verdict'] == 'X':
             continue
         if s['verdict'] == 'HANG':
             return f'step {k}: validation neither finished nor waited for a certificate'
-        at = case
-        if case.get('appear') and k >= case['appear'][0]:
-            at = dict(case, world=dict(case['world'], **{case['appear'][1]: case['appear'][2]}))
-        exp, why = spec_chain(at, case['insts'][ii], oid)
+        at = dict(case, world=world_at(case, k)) if changes(case) else case
+        inst = case['insts'][ii]
+        sid = storage_id(case, ii)
+        held = set(trust.get(sid, ())) if sid is not None else set()
+        exp, why = spec_chain(at, inst, oid)                  # a chain in the world as it is NOW
         got = s['verdict'] == 'A'
-        if got and not exp:
-            others = sorted(set(j for j, _ in case['steps'][:k] if j != ii))
+        if got and not exp and not (held and spec_chain(at, inst, oid, trusted=held)[0]):
+            others = sorted(set(j for j, _ in case['steps'][:k] if j != ii and storage_id(case, j) != sid))
             return (f'step {k}: instance {ii} accepted a packet without a valid chain to its anchor ({why})'
                     + (' after other instances validated before' if others else ''))
+        if sid is not None:
+            for f in s['fetched']:
+                key = served_key(case, at['world'], f[0])
+                if key not in (None, 'empty') and spec_chain(at, inst, at['world'][f[0]][1], trusted=held)[0]:
+                    trust.setdefault(sid, set()).add((f[0], key))
         if exp and not got and 'odd' in why:
             continue      # chain through an expired / not-yet-valid / non-KEY certificate: refusing it is not judged
+        if exp and not got and sid is not None and not key_stable(case, k):
+            continue      # ANOTHER key was served under one name before (a name denotes one certificate in NDN): a storage that
+            #               holds the earlier key refuses what the new key signed - not judged (model: compared; theorem: KeyStable)
         if exp and not got:
             kinds = ' that contains Ed25519 signatures' if 'ed25519' in why else ''
             return f'step {k}: instance {ii} did not accept a packet with a valid chain{kinds}: {s["verdict"]}'
@@ -840,6 +940,15 @@ def tags(case, impl):
         if o.get('by'):
             t.append('keytype:' + ktype(o['by']))
     t.append('family:' + case.get('family', '?'))
+    if changes(case):
+        for k, n, out in changes(case):
+            t.append('change:' + ('absent' if out is None else out[0]))
+        for k, ((ii, oid), st) in enumerate(zip(case['steps'], impl['steps'])):
+            if st['verdict'] == 'A' and not st['fetched'] and kl_name(case, case['objs'][oid]) != fullname(case['objs'][case['insts'][ii]['anchor']]):
+                if spec_chain(dict(case, world=world_at(case, k)), case['insts'][ii], oid)[0] is not True:
+                    t.append('accepted-from-cache-without-chain-now')
+            if st['verdict'] != 'A' and spec_chain(dict(case, world=world_at(case, k)), case['insts'][ii], oid)[0] is True:
+                t.append('chain-now-not-accepted(key-replaced)' if not key_stable(case, k) else 'chain-now-not-accepted')
     if case.get('alias'):
         t.append('alias:' + case['alias'])
         seen = set()
@@ -1213,6 +1322,139 @@ def _gen(rng, family='random'):
     return case
 
 
+def _chain_cands(base):
+    """(instance, packet, certificate name, certificate oid, position) for every certificate that comes from the world on a
+    valid chain of a step of the case"""
+    cands = []
+    for (ii, oid) in base['steps']:
+        ok, _ = spec_chain(base, base['insts'][ii], oid)
+        if ok is not True:
+            continue
+        o, chain = base['objs'][oid], []
+        aname = fullname(base['objs'][base['insts'][ii]['anchor']])
+        while True:
+            kn = kl_name(base, o)
+            if kn is None or kn == aname:
+                break
+            w = base['world'].get(kn)
+            if not w or w[0] != 'D' or w[1] in [c[1] for c in chain]:
+                break
+            chain.append((kn, w[1]))
+            o = base['objs'][w[1]]
+        for pos, (kn, coid) in enumerate(chain):
+            cands.append((ii, oid, kn, coid, pos))
+    return cands
+
+
+DYNAMIC = ['appear', 'appear', 'disappear', 'disappear', 'disappear', 'replace', 'replace', 'shared', 'shared', 'flap']
+
+
+def _gen_dynamic(rng):
+    """a history in which the certificate world changes between validations and / or several instances were handed ONE storage
+    object.  From a generated PKI with a valid chain through a certificate C named N:
+      appear     N times out / is Nacked at the first validation, then C is retrievable: the same instance and a fresh one are asked
+      disappear  the packet is validated (C's key is stored), then N is withdrawn (absent / timeout / Nack): the same instance, an
+                 instance holding the same storage object, a fresh instance and one with an EmptyKeyStorage are asked; sometimes C
+                 comes back afterwards
+      replace    after the first validation ANOTHER certificate (another key, same issuer) is published under the same name N, and a
+                 packet signed with the new key exists: old and new packet through the old instance and a fresh one
+      shared     two instances with DIFFERENT anchor or schema are handed one storage object (static or changing world)
+      flap       N alternates between retrievable and not, the same instance asked each time"""
+    base = _gen(rng)
+    if LV.is_lvs(base):
+        return None
+    kind = rng.choice(DYNAMIC)
+    cands = _chain_cands(base)
+    if kind == 'replace':
+        cands = [c for c in cands if c[4] == 0 and base['objs'][c[1]]['kind'] == 'pkt']
+    if not cands:
+        return None
+    ii, oid, kn, coid, _ = rng.choice(cands)
+    c = json.loads(json.dumps(base))
+    c['family'] = 'dyn:' + kind
+    insts = c['insts']
+
+    def clone(storage):
+        i2 = json.loads(json.dumps(insts[ii]))
+        if storage is None:
+            i2.pop('storage', None)
+        else:
+            i2['storage'] = storage
+        insts.append(i2)
+        return len(insts) - 1
+    gone = lambda: rng.choice([None, None, ['T'], ['N']])      # noqa
+    if kind == 'appear':
+        c['world'][kn] = [rng.choice(['T', 'N'])]
+        j = clone(rng.choice([None, None, 'mem', 'empty']))
+        c['steps'] = [[ii, oid], [ii, oid], [j, oid]] if rng.random() < 0.7 else [[ii, oid], [j, oid], [ii, oid], [ii, oid]]
+        c['changes'] = [[1, kn, ['D', coid]]]
+        return c
+    if kind in ('disappear', 'flap'):
+        if insts[ii].get('storage') in (None, 'mem') and rng.random() < 0.6:
+            insts[ii]['storage'] = 'shareA'
+        fresh = clone(None)
+        extra = [fresh]
+        if insts[ii].get('storage') not in (None, 'mem', 'empty'):
+            extra.append(clone(insts[ii]['storage']))          # holds the same storage object
+        if rng.random() < 0.5:
+            extra.append(clone('empty'))
+        if kind == 'flap':
+            c['steps'], c['changes'] = [], []
+            up = rng.random() < 0.5
+            if not up:
+                c['world'][kn] = gone() or ['T']
+            for r in range(rng.randint(3, 5)):
+                c['steps'].append([ii, oid])
+                if rng.random() < 0.4:
+                    c['steps'].append([rng.choice(extra), oid])
+                up = not up
+                c['changes'].append([len(c['steps']), kn, ['D', coid] if up else gone()])
+            c['steps'].append([ii, oid])
+            return c
+        others = [x for x in set(o2 for _, o2 in base['steps']) if x != oid]
+        c['steps'] = [[ii, oid]]
+        c['changes'] = [[1, kn, gone()]]
+        tail = [[ii, oid]] + [[j, oid] for j in extra]
+        if others and rng.random() < 0.5:
+            tail.append([ii, rng.choice(others)])
+        rng.shuffle(tail)
+        c['steps'] += tail
+        if rng.random() < 0.3:                                  # ... and the certificate comes back
+            c['changes'].append([len(c['steps']), kn, ['D', coid]])
+            c['steps'] += [[rng.choice(extra), oid], [ii, oid]]
+        return c
+    if kind == 'replace':
+        old = c['objs'][coid]
+        used = set(o.get('key') for o in c['objs'].values()) | set(o.get('by') for o in c['objs'].values())
+        free = [k for k in sorted(_pool_ids()) if k not in used and old['key'] in _pool_ids() and ktype(k) == ktype(old['key'])]
+        if not free:
+            return None
+        twin = dict(old, key=rng.choice(free))
+        toid = 'o%02d' % len(c['objs'])
+        c['objs'][toid] = twin
+        pk = c['objs'][oid]
+        noid = 'o%02d' % len(c['objs'])
+        c['objs'][noid] = dict(pk, name=pk['name'] + 'r', by=twin['key'], kl=toid)
+        fresh = clone(rng.choice([None, None, 'empty']))
+        c['steps'] = [[ii, oid]]
+        c['changes'] = [[1, kn, ['D', toid]]]
+        tail = [[ii, noid], [fresh, noid], [ii, oid], [fresh, oid]]
+        rng.shuffle(tail)
+        c['steps'] += tail[:rng.randint(2, 4)]
+        return c
+    # shared: another instance (another anchor / schema when the case has one) is handed the storage object of instance ii
+    others = [j for j in range(len(insts)) if j != ii]
+    jj = rng.choice(others) if others else clone(None)
+    insts[ii]['storage'] = insts[jj]['storage'] = 'shareA'
+    pk = [o2 for _, o2 in base['steps']]
+    c['steps'] = [[ii, oid], [jj, oid]] + [[rng.choice([ii, jj]), rng.choice(pk)] for _ in range(rng.randint(0, 3))]
+    if rng.random() < 0.3:
+        c['steps'].insert(0, [jj, oid])
+    if rng.random() < 0.5:
+        c['changes'] = [[rng.randint(1, len(c['steps']) - 1), kn, gone()]]
+    return c
+
+
 def cases(rng, tier):
     n = 520 if tier == 'quick' else 9000
     nperm = 8 if tier == 'quick' else 150
@@ -1229,46 +1471,15 @@ def cases(rng, tier):
             c = json.loads(json.dumps(base))
             c['steps'] = [list(s) for s in perm]
             yield c
-    # a certificate that could not be retrieved (timeout / Nack) when a packet was first validated becomes retrievable:
-    # the same instance, asked again, must accept ("every certificate on the way can be retrieved" is judged when the
-    # validator is asked, and the verdict does not depend on what was validated before), and so must a fresh instance
+    # the certificate world CHANGES between validations, several instances hold one storage object (_gen_dynamic)
     made, tries = 0, 0
-    want = 40 if tier == 'quick' else 600
+    want = 90 if tier == 'quick' else 1500
     while made < want and tries < want * 30:
         tries += 1
-        base = _gen(rng)
-        if LV.is_lvs(base) or any(i.get('storage') not in (None, 'mem') for i in base['insts']):
-            continue
-        cands = []
-        for (ii, oid) in base['steps']:
-            ok, _ = spec_chain(base, base['insts'][ii], oid)
-            if ok is not True:
-                continue
-            # the certificates on the chain that come from the world
-            o, chain = base['objs'][oid], []
-            aname = fullname(base['objs'][base['insts'][ii]['anchor']])
-            while True:
-                kn = kl_name(base, o)
-                if kn is None or kn == aname:
-                    break
-                w = base['world'].get(kn)
-                if not w or w[0] != 'D' or w[1] in [c[1] for c in chain]:
-                    break
-                chain.append((kn, w[1]))
-                o = base['objs'][w[1]]
-            for kn, coid in chain:
-                cands.append((ii, oid, kn, coid))
-        if not cands:
-            continue
-        ii, oid, kn, coid = rng.choice(cands)
-        c = json.loads(json.dumps(base))
-        c['world'][kn] = [rng.choice(['T', 'N'])]
-        c['insts'].append(json.loads(json.dumps(c['insts'][ii])))
-        j = len(c['insts']) - 1
-        c['steps'] = [[ii, oid], [ii, oid], [j, oid]] if rng.random() < 0.7 else [[ii, oid], [j, oid], [ii, oid], [ii, oid]]
-        c['appear'] = [1, kn, ['D', coid]]
-        made += 1
-        yield c
+        c = _gen_dynamic(rng)
+        if c is not None:
+            made += 1
+            yield c
     yield from LV.cases(rng, tier)      # generated LVS schemas: construction check and anchor-signed packets (c14_lvs.py)
 
 
@@ -1276,8 +1487,30 @@ def shrink(case):
     if LV.is_lvs(case):
         yield from LV.shrink(case)
         return
-    if case.get('appear'):
-        return          # step indices are part of the case
+    if changes(case):
+        # step indices are part of the case: drop one step (later changes move up) / one change, then unreachable objects
+        ch = changes(case)
+        for i in range(len(case['steps'])):
+            c = json.loads(json.dumps(case))
+            c.pop('appear', None)
+            c['steps'] = case['steps'][:i] + case['steps'][i + 1:]
+            c['changes'] = [[k - 1 if k > i else k, n, out] for k, n, out in ch]
+            if c['steps']:
+                yield c
+        for i in range(len(ch)):
+            c = json.loads(json.dumps(case))
+            c.pop('appear', None)
+            c['changes'] = ch[:i] + ch[i + 1:]
+            yield c
+        used = set(j for j, _ in case['steps'])
+        for k in range(len(case['insts']) - 1, -1, -1):
+            if k not in used:
+                c = json.loads(json.dumps(case))
+                c['insts'] = case['insts'][:k] + case['insts'][k + 1:]
+                c['steps'] = [[i - (1 if i > k else 0), o] for i, o in case['steps']]
+                yield c
+                break
+        return
     steps = case['steps']
     for i in range(len(steps)):
         c = json.loads(json.dumps(case))
@@ -1412,6 +1645,14 @@ LEVEL_TEXT = ('Lean 4 theorems over a hand-written model of lvs_validator / unio
               'check raises; every Interest sent is the exact-name / MustBeFresh / 4000 ms Interest for a key locator (keyword '
               'arguments of the express_interest call as a generated table), a returned Data is taken only if it has exactly the '
               'requested name, and a key is stored only under the name that was requested and only as the content of such a Data. '
+              'Histories with a CHANGING certificate world and explicit storage objects (events validate / world; EmptyKeyStorage, '
+              'MemoryKeyStorage objects possibly handed to several instances): completeness for every history - a chain in the world as '
+              'it is now is accepted whatever happened before (failed fetches, earlier worlds, other instances), provided a name denotes '
+              'one key; soundness with a cache - an acceptance has a chain through certificates retrievable now that reaches the anchor or '
+              'ends at a key of a certificate that was retrievable and had such a chain at an earlier validation of an instance holding '
+              'the same storage object; exact iff at every step for EmptyKeyStorage; isolation - deleting every validation of instances '
+              'that do not hold the same storage object changes nothing; refinement - without world events and with private storages the '
+              'model is the static one (old theorems as corollaries). '
               'The model is tied to the code '
               'on every run by differential execution of the compiled model against the real validator on the real NDNApp with '
               'real keys and certificates - the driver runs the COMPOSED model (compiled LVS model + certificate world; every '
@@ -1419,7 +1660,14 @@ LEVEL_TEXT = ('Lean 4 theorems over a hand-written model of lvs_validator / unio
               'parameters computed by the model and compared) - plus an independent chain oracle computed from the generator\'s '
               'ground truth.')
 LEVEL_NOTE = ('Proof is about the model; model=code is sampled (differential testing), not proved. Signatures are ideal '
-              '(explicit hypotheses); the LVS signing check is the C12 model in the `_lvs` theorems (a parameter in the generic ones); '
-              'the world is static during a case.')
+              '(explicit hypotheses); the LVS signing check is the C12 model in the `_lvs` theorems (a parameter in the generic ones). '
+              'With a world that changes, soundness (accept_sound_with_cache) is WEAKER than the statement\'s "iff" exactly by the cache: '
+              'an accepted chain may end at the key of a certificate that is no longer retrievable but was retrieved and validated by a '
+              'chain at an earlier validation of an instance holding the same storage object (exhibited: Props/C14.lean example DISAPPEAR, '
+              'stream dyn:disappear tag accepted-from-cache-without-chain-now - judged within "can be retrieved", not reported; nothing ever '
+              'expires a stored key). Completeness (accept_of_chain_now) holds for every history under KeyStable (no other key was ever '
+              'served under the name of a certificate retrievable now); without it it is false (example REPLACE). With an EmptyKeyStorage '
+              'the plain iff holds at every step. Isolation (instances_independent) is by storage OBJECT: instances the caller handed one '
+              'object do influence each other.')
 TECHNIQUE = 'Lean 4 proof (induction on fuel / on the chain, storage invariant) + model/implementation correspondence check'
 DESIGN_REF = 'DESIGN.md section 7, C14; finding F11'
